@@ -205,7 +205,9 @@ Definition r2l (dst : option tree) (sname dname : string) (t' : tree) : tree :=
 Definition same_loc (w : bool) (dst : option tree) (sname dname : string) (t : tree) : tree :=
   let fs := world dname dst in
   if w then extract (members (place dst sname dname) t) fs
-  else at_path (place dst sname dname) (fun _ => Link SRC) (Some fs).
+  else at_path (place dst sname dname)
+               (fun o => match o with Some (Dir es) => Dir es | _ => Link SRC end)   (* ln -f cannot replace a directory *)
+               (Some fs).
 
 (* get_remote_to_remote_write_command *)
 Inductive wcmd := XInto (d : path) | XStrip (d : path) | XTee (f : path).
